@@ -48,7 +48,11 @@ def divided_by(num: Union[float, int], other: object) -> Union[float, int]:
     try:
         if isinstance(other, int) and isinstance(num, int):
             return num // other
-        return num / other
+        try:
+            # Exact decimal division, like plus, minus, times and modulo.
+            return float(decimal.Decimal(str(num)) / decimal.Decimal(str(other)))
+        except decimal.InvalidOperation:
+            return num / other
     except ZeroDivisionError as err:
         raise FilterArgumentError(
             f"divided_by: can't divide by {other}", token=None
